@@ -73,13 +73,9 @@ func runC16(c *Ctx) {
 	c16TablesInverse(c)
 	c16HoistCountsAll(c)
 	{
-		var pkgs []*packages.Package
-		for _, rel := range []string{"private/bufpkg/bufconfig", "private/buf/bufmigrate", "private/buf/bufgen", "private/buf/bufworkspace"} {
-			if q := c.P.Pkg(rel); q != nil {
-				pkgs = append(pkgs, q)
-			}
-		}
-		ruleArgsNamesake(c, "ARGS-NAMESAKE", pkgs, 3)
+		// module-wide: the config constructors are called from the commands, the migration, the workspace and the generators
+		pkgs := c.P.ModulePkgs()
+		ruleArgsNamesake(c, "ARGS-NAMESAKE", pkgs, 20)
 	}
 	pk := p.Pkg("private/bufpkg/bufconfig")
 	if pk == nil {
